@@ -206,6 +206,9 @@ func ruleImplicitPanic(w *World, r *Run, rule string, reach map[*ssa.Function]bo
 						}
 						ln = mk("const", fmt.Sprint(at), 0, types.Typ[types.Int])
 					}
+					if n, known := knownLen(base); !ok && known {
+						ln = mk("const", fmt.Sprint(n), 0, types.Typ[types.Int])
+					}
 					if !ok && implies(facts, "<", idx, ln, true) && (implies(facts, "<", idx, zero, false) || nonNeg(idx)) {
 						ok, why = true, "dominated by facts implying 0 <= index < len"
 					}
